@@ -8,7 +8,7 @@ import (
 	"net/url"
 )
 
-//verif:harness id=C10 tier=quick,thorough witness=end bounds="legacy router over the 5 template families of C09 x method = any 1-3 byte string over [A-Z] or one of the nine standard methods x every request path '/'+ up to 3 bytes over {/,a,b,c,{,}}; assertion = no panic"
+//verif:harness id=C10 tier=quick,thorough witness=end bounds="legacy router over the 6 template families of C09 x method = any 1-3 byte string over [A-Z] or one of the nine standard methods x every request path '/'+ up to 3 bytes over {/,a,b,c,{,}}; assertion = no panic"
 func verifH_C10_legacy_router() {
 	fam := verifChoose("family", len(verifFamilies))
 	templates := verifFamilies[fam]
